@@ -294,7 +294,7 @@ PROPS = {
                  "with or without an OPT record of the handler's own; records spread over sections), with request EDNS absent or "
                  "UDP size in {0, 300, 511, 512, 513, 1232, 4096, 65535}, DO, padding, keep-alive, NSID, unknown option; every "
                  "query is sent over UDP, TCP, DoT, DoH (HTTP/2 and HTTP/3), DoQ, DNSCrypt/UDP and DNSCrypt/TCP and judged on the bytes received (for "
-                 "DNSCrypt: the datagram as received and the message inside it); in a share of the runs (tape-chosen) the plain-DNS and DoT servers listen through the real interface listeners of internal/bindtodevice (channel sizes 1, 4 or 64) on simulated sockets; every run is non-trivial; "
+                 "DNSCrypt: the datagram as received and the message inside it); in a share of the runs (tape-chosen) the plain-DNS and DoT servers listen through the real interface listeners of internal/bindtodevice (channel sizes 1, 4 or 64) on simulated sockets; sysim part: 1-6 concurrent client streams of 3-16 queries each over DoT through the whole handler stack (OPT absent or with size 512/600/1232/4096, padding, keep-alive; names the stub filter rewrites, later requesters getting a copy of the first one's rewritten query; answers of about 1000 octets), each response judged as it arrives; every run is non-trivial; "
                  "distinct = distinct decision-sequence hash"),
         "assumptions": [
             "DNSCrypt runs through a patched copy of ameshkov/dnscrypt v2.3.0 (net.PacketConn instead of *net.UDPConn); a configured maximum of zero (which a configuration cannot have) is not judged on DNSCrypt",
@@ -302,7 +302,7 @@ PROPS = {
             "network without faults: the dimension explored is response size x EDNS settings x configured maximum",
         ],
         "components": {
-            "real": ["internal/dnsserver normalize/truncate, response writers of UDP, TCP, DoT, DoH, DoQ", "miekg/dns Truncate and packing", "internal/bindtodevice session writer under plain DNS and DoT in a third of the runs"],
+            "real": ["internal/dnsserver normalize/truncate, response writers of UDP, TCP, DoT, DoH, DoQ", "miekg/dns Truncate and packing", "internal/bindtodevice session writer under plain DNS and DoT in a third of the runs", "sysim part: dnssvc.NewHandlers stack (initial, rate-limit, pre-service, main, pre-upstream middlewares, ecscache) behind dnsserver.ServerTLS"],
             "stub": ["network (simnet)", "handler (pipeline function with size-by-name responses)"],
             "sim": "clock: testing/synctest; network: /verif/sim/simnet immediate mode",
         },
